@@ -308,7 +308,8 @@ def program(draw):
             steps.append(["from_", [["src", fk]]])
             sources.append(fk)
         if kind == "update_join":
-            fk = draw(st.sampled_from(["D", "SA"]))
+            # (P3: another un-aliased object of the target's own table - a self-join, which gets the automatic alias)
+            fk = draw(st.sampled_from(["D", "SA"] + (["P3", "P3"] if tk == "P" else [])))
             steps.append(["join", [["src", fk], ["enum", "JoinType", "inner"]], {}, ["on", [["eq", b.f(tk, "on"), b.f(fk, "on")]]]])
             sources.append(fk)
         for _ in range(draw(st.integers(1, 2))):
